@@ -180,6 +180,31 @@ Example C31_combined_example :
 Proof. split; [vm_compute; reflexivity|]. split; [vm_compute; reflexivity|].
   eexists. eexists. eexists. repeat split; vm_compute; reflexivity. Qed.
 
+(* The widened syntax (last round): comparison / arithmetic / logical operators, null, array and object literals, regular-
+   expression literals, method calls on receivers that are not the inputs object (a method call on a value read from
+   inputs.x reads exactly x), for / while loops, var f = function(..){..} at the top level.  Operators, literals, method
+   calls and && || are in BOTH parts of the combined fragment (operands / elements / receivers / arguments must
+   syntactically not be the inputs object or an alias: the whole-object uses stay the refuted/known class); loops and
+   function-valued variables are in the alias-free part (in_fragmentF) only.  The theorems above are stated over this
+   widened syntax. *)
+Definition ex_wlib : stmt :=
+  SFunE "up" ["s"]
+    (SSeq (SVarI "t" (EStr true ""))
+    (SSeq (SFor (SVarI "i" (ENum 0)) (EOp "<" [] (ECons (EId "i") (ECons (ENum 2) ENil)))
+                (EAssign "i" (EAdd (EId "i") (ENum 1)))
+                (SExpr (EAssign "t" (ECall (EDot (EId "t") "concat") (ECons (EId "s") ENil)))))
+          (SRet (EId "t")))).
+Definition ex_wbody : stmt :=
+  SRet (EOp "obj" ["r"; "n"]
+         (ECons (ECall (EId "up") (ECons (EDot I "a") ENil))
+         (ECons (ELogic false (EOp "===" [] (ECons (EDot I "b") (ECons (EOp "null" [] ENil) ENil)))
+                              (EOp "!" [] (ECons (EDot I "k") ENil))) ENil))).
+Example C31_widened_example :
+  in_fragmentC ex_wlib ex_wbody = true /\
+  exists w c s, deps_js ex_wlib ex_wbody = WOk w /\ run inp0 60 ex_wlib ex_wbody = Ok c s /\
+                incl_b (snd s) (dp w) = true /\ List.length (snd s) = 3.
+Proof. split; [vm_compute; reflexivity|]. eexists. eexists. eexists. repeat split; vm_compute; reflexivity. Qed.
+
 (* Whole interpolated strings (Model.v, section 6): text, $(parameter reference) and ${body} / $(expr) parts mixed in one
    string, with a common expressionLib.  If every part is in a proved fragment (parts_in_fragment: references as in
    C31_paramref_sound or rooted at self/runtime; JS parts in in_fragmentF with the library, or in in_fragment when there
